@@ -12,14 +12,15 @@ Reader contract (assumed here, its own obligations are in contracts/c11.py / c12
 Contract of the real eval_sys_read, for every T and every 0 <= pos <= len(T):
     T[pos:] == ""  ==>  returns None and at_eof is set
     otherwise      ==>  the text handed to the reader is a suffix T[p:] of the channel with p >= old(pos), the returned object is the
-                        reader's object, and the position left behind is p + i: exactly the end, within the channel, of the object that
-                        was returned - so the next .r starts at the first character after it.
+                        reader's object, and the position left behind is p + i - the end, within the channel, of the object that
+                        was returned - or later by nothing but blanks: the next .r starts behind the object, never inside it.
 """
 import z3
 
 from pyvc.values import *
 
 K = 'klongpy/sys_fn.py::eval_sys_read'
+WS = (' ', '\t', '\n', '\r', '\x0b', '\x0c')      # ASCII white space (what str.lstrip() strips, for ASCII text)
 Str_ = z3.StringSort()
 
 
@@ -43,11 +44,15 @@ def build(reg, src):
         given = s.g('given')
         if isinstance(given, VNoneT):
             # the reader was not called: only right when no object is left on the channel (nothing, or nothing but blanks / line ends)
-            blank = z3.Star(z3.Union(*[z3.Re(z3.StringVal(c)) for c in (' ', '\t', '\n', '\r')]))
+            blank = z3.Star(z3.Union(*[z3.Re(z3.StringVal(c)) for c in WS]))
             return And(VBool(z3.InRe(rest, blank)), is_none(r), s.st.field(s.g('cin'), 'at_eof'))
         g, i, a = given.t, s.g('read_i').t, s.g('read_a')
         p = z3.Length(T) - z3.Length(g)
-        return And(VBool(z3.And(p >= P0, g == z3.SubString(T, p, z3.Length(g)), s.g('pos').t == p + i)), same(r, a))
+        end = s.g('pos').t
+        blank = z3.Star(z3.Union(*[z3.Re(z3.StringVal(c)) for c in WS]))
+        # behind the object that was returned; blanks after it may have been consumed as well (they carry no object)
+        return And(VBool(z3.And(p >= P0, g == z3.SubString(T, p, z3.Length(g)), end >= p + i, end <= z3.Length(T),
+                                z3.InRe(z3.SubString(T, p + i, end - (p + i)), blank))), same(r, a))
     reg.fn(K, setup=setup, returns='opaque', ensures=[post])
     reg.assumed_calls.update({'klong.current_module': 'opaque'})
 
@@ -94,11 +99,17 @@ def configure(eng):
                 st.ghost['pos'] = args[0]
                 return [(st, args[0])]
             raise Refuse(f"channel method {m} is not modelled")
-        if isinstance(o, VStr) and m == 'lstrip' and not args:
-            # s.lstrip() is a suffix of s (which characters go is left open: every suffix is allowed - an over-approximation)
+        if isinstance(o, VStr) and m == 'lstrip' and (not args or (len(args) == 1 and isinstance(args[0], VStr) and z3.is_string_value(z3.simplify(args[0].t)))):
+            # s.lstrip(chars) == s[n:] where s[:n] consists of chars and s[n] (if any) is not one of them; no argument: ASCII white space
+            chars = WS if not args else tuple(z3.simplify(args[0].t).as_string())
+            if not chars:
+                return [(st, o)]
+            one = z3.Union(*[z3.Re(z3.StringVal(c)) for c in chars]) if len(chars) > 1 else z3.Re(z3.StringVal(chars[0]))
             n = fresh(Int, 'stripped')
-            st.assume(z3.And(0 <= n.t, n.t <= z3.Length(o.t)))
-            return [(st, VStr(z3.SubString(o.t, n.t, z3.Length(o.t) - n.t)))]
+            L = z3.Length(o.t)
+            st.assume(z3.And(0 <= n.t, n.t <= L, z3.InRe(z3.SubString(o.t, 0, n.t), z3.Star(one)),
+                             z3.Or(n.t == L, z3.Not(z3.InRe(z3.SubString(o.t, n.t, 1), one)))))
+            return [(st, VStr(z3.SubString(o.t, n.t, L - n.t)))]
         return None
     eng.hooks['method'] = method
     eng.hooks['getattr:RawStream'] = lambda e, v, attr, st, node: [(st, VFunc(f"<method {attr}>", self_obj=v, model=None, key=('builtin_method', attr)))]
